@@ -1149,7 +1149,7 @@ def rt2(ctx):
     """the renderer ranks candidate base phones with a *stable* sort: equal distances keep the (sorted) table order, so
     the spelling chosen among ties is the one the parser's left-to-right reading was tuned against"""
     from facts import callee_path
-    r = RuleResult("RT-2", "the renderer's candidate ranking is a stable sort over the sorted cardinal table (ties keep table order)", floor=2)
+    r = RuleResult("RT-2", "the renderer's candidate ranking is a stable sort over the sorted cardinal table (ties keep table order)", floor=3)
     lib = ctx.lib
     n = 0
     roots = ("asca::seg::Segment::get_as_grapheme", "asca::seg::Segment::get_nearest_grapheme")
@@ -1172,3 +1172,171 @@ def rt2(ctx):
     if n < 2:
         raise AnchorMissing("renderer: fewer than two candidate sorts found (%d)" % n)
     return r
+
+
+# ---------------------------------------------------------------- SYN-2: cursor rewinds restore the current token
+
+def _self_field(place, owner):
+    """name of the field of `*self` (local 1 behind a deref) a place goes through, or None"""
+    if place.get("l") != 1 or len(place.get("p") or []) < 2 or place["p"][0] != "*":
+        return None
+    p = place["p"][1]
+    if isinstance(p, dict) and (p.get("of") or "") == owner:
+        return p.get("n")
+    return None
+
+
+def _places_read(x, out):
+    """every place mentioned in an rvalue / operand / terminator JSON (reads, refs, copies, moves)"""
+    if isinstance(x, dict):
+        if "pl" in x and isinstance(x["pl"], dict) and "l" in x["pl"]:
+            out.append(x["pl"])
+        for k, v in x.items():
+            if k not in ("lhs", "dest"):
+                _places_read(v, out)
+    elif isinstance(x, list):
+        for y in x:
+            _places_read(y, out)
+
+
+def syn2(ctx, unit=None, grammars=None):
+    """The rule parser keeps a cursor (`pos`) and a copy of the token under it (`curr_tkn`). `advance()` is the one function
+    that moves both -- and it is *history dependent*: once the current token is a `;;` comment it answers Eol whatever `pos`
+    says.  A back-track that only rewrites `pos` and then calls advance() therefore restores the token for `X` but not for
+    `X ;; note`: the commented spelling of the rule is rejected (or parsed differently) where the bare one is accepted."""
+    r = RuleResult("SYN-2", "a parser back-track (a write of the cursor outside the stepping function) restores the current token directly, never through a stepping function whose result depends on the token being left (a trailing `;;` comment would otherwise change the parse)", floor=3)
+    unit = unit or ctx.lib
+    grammars = grammars or [("rule", "asca::parser::Parser"), ("alias", "asca::alias::parser::AliasParser")]
+    n_rewind = 0
+    for gname, owner in grammars:
+        adt = unit.adts.get(owner)
+        if adt is None:
+            raise AnchorMissing("SYN-2: parser type %s not found" % owner)
+        methods = [b for b in unit.bodies if b.path.startswith(owner + "::") and not b.in_test_mod() and b.blocks and "{closure" not in b.path]
+        writes, reads = {}, {}
+        for b in methods:
+            w, rd = {}, set()
+            for bi, bl in enumerate(b.blocks):
+                if bl.get("cleanup"):
+                    continue
+                for si, s in enumerate(bl["s"]):
+                    if s["k"] == "assign":
+                        f = _self_field(s["lhs"], owner)
+                        if f:
+                            w.setdefault(f, []).append((bi, si, s))
+                        pls = []
+                        _places_read(s["rv"], pls)
+                        for pl in pls:
+                            f2 = _self_field(pl, owner)
+                            if f2:
+                                rd.add(f2)
+                pls = []
+                _places_read(bl["t"], pls)
+                for pl in pls:
+                    f2 = _self_field(pl, owner)
+                    if f2:
+                        rd.add(f2)
+            writes[b.path], reads[b.path] = w, rd
+        # field roles: the stepping function writes one usize field (the cursor) and one field holding the current token
+        fields = {f["name"]: f["ty"] for v in adt.get("variants", []) for f in v.get("fields", [])}
+        roles = set()
+        for b in methods:
+            w = writes[b.path]
+            us = [f for f in w if fields.get(f) == "usize"]
+            tk = [f for f in w if f in fields and fields[f].endswith("Token")]
+            if len(us) == 1 and len(tk) == 1:
+                roles.add((us[0], tk[0]))
+        if not roles:
+            raise AnchorMissing("SYN-2: %s grammar: no function writes both the cursor and the current token" % gname)
+        if len(roles) != 1:
+            raise AnchorMissing("SYN-2: %s grammar: stepping functions disagree on the cursor/token fields: %s" % (gname, sorted(roles)))
+        POS, CUR = roles.pop()
+        # a function is a history-dependent stepper when, between a write of the cursor and the write of the token that follows
+        # it, it reads the token being left
+        hist = set()
+        sites = []
+        for b in methods:
+            for (bi, si, s) in writes[b.path].get(POS, []):
+                ok, why, where, read_cur = _after_rewind(b, bi, si, owner, CUR, (), ())
+                if ok and read_cur:
+                    hist.add(b.path)
+                sites.append((b, bi, si, s))
+        for p in sorted(hist):
+            r.inst("%s grammar: %s moves `%s` and then sets `%s` to a value that depends on the token being left" % (gname, p, POS, CUR), fn_loc(unit.body(p)), "ok")
+        # transitive closure: functions that (may) call a history-dependent stepper
+        by_path = {b.path: b for b in methods}
+        calls = {b.path: {callee_path_(t) for _, t in b.calls()} for b in methods}
+        tainted = set(hist)
+        changed = True
+        while changed:
+            changed = False
+            for p, cs in calls.items():
+                if p not in tainted and cs & tainted:
+                    tainted.add(p)
+                    changed = True
+        restorers = {p for p in by_path if CUR in writes[p] and p not in tainted}
+        for (b, bi, si, s) in sites:
+            n_rewind += 1
+            verdict, why, where, read_cur = _after_rewind(b, bi, si, owner, CUR, tainted, restorers)
+            k = sum(1 for (bj, sj, _) in writes[b.path][POS] if (bj, sj) < (bi, si))
+            stepping = b.path in hist and verdict
+            r.inst("%s: cursor write #%d is followed on every path by a direct write of `%s`%s" % (b.path, k, CUR, " (the stepping function)" if stepping else ""),
+                   fn_loc(b, int(s["loc"].split(":")[1])) if s.get("loc") else fn_loc(b), "ok" if verdict else "report")
+            if not verdict:
+                r.report("SYN-2|%s|rewind#%d|%s" % (b.path, k, why), where or fn_loc(b), b.path,
+                         {"stepper": "after rewinding `%s` the current token is re-read through %s, whose answer depends on the token being left: when that token is a `;;` comment it yields Eol, so `X ;; note` is parsed differently from `X`" % (POS, why_name(where, b, tainted)),
+                          "return": "the cursor `%s` is rewritten and the function returns without restoring `%s`: cursor and current token disagree" % (POS, CUR)}[why])
+    r.analysed = {"rewind_sites": n_rewind}
+    return r
+
+
+def callee_path_(t):
+    c = t.get("callee") or {}
+    return c.get("res") or c.get("def") or ""
+
+
+def why_name(where, b, tainted):
+    for _, t in b.calls():
+        if callee_path_(t) in tainted and t.get("loc") and where and t["loc"].startswith(where.split(":")[0]) and t["loc"].split(":")[1] == where.split(":")[1]:
+            return callee_path_(t).rsplit("::", 1)[-1] + "()"
+    return "a stepping function"
+
+
+def _after_rewind(b, bi, si, owner, CUR, tainted, restorers):
+    """first cursor event on every path after statement (bi, si); also: is the token field read on the way to its write?"""
+    seen = set()
+    st = [(bi, si + 1)]
+    read_cur = False
+    while st:
+        x, k = st.pop()
+        bl = b.blocks[x]
+        done = False
+        for s in bl["s"][k:]:
+            if s["k"] == "assign":
+                pls = []
+                _places_read(s["rv"], pls)
+                if any(_self_field(pl, owner) == CUR for pl in pls):
+                    read_cur = True
+                if _self_field(s["lhs"], owner) == CUR:
+                    done = True
+                    break
+        if done:
+            continue
+        t = bl["t"]
+        pls = []
+        _places_read({k2: v for k2, v in t.items() if k2 != "pl" or t["k"] != "drop"}, pls)
+        if any(_self_field(pl, owner) == CUR for pl in pls):
+            read_cur = True
+        if t["k"] == "call":
+            cp = callee_path_(t)
+            if cp in restorers:
+                continue
+            if cp in tainted:
+                return False, "stepper", ":".join((t.get("loc") or b.loc).split(":")[:2]), read_cur
+        if t["k"] == "return":
+            return False, "return", ":".join((t.get("loc") or b.loc).split(":")[:2]), read_cur
+        for s2 in b.cfg.succ[x]:
+            if s2 not in seen:
+                seen.add(s2)
+                st.append((s2, 0))
+    return True, None, None, read_cur
